@@ -963,6 +963,37 @@ func ruleSeparatorBetweenNonEmpty(c *eng.Ctx) {
 			})
 			c.Check(guarded, R, fmt.Sprintf("%s#separator%d", eng.FuncName(fn), n), ci.Pos(), "written only after earlier output", "the page separator can be written before anything else: a blank first page of the selection leaves a leading separator")
 		}
+		// the same accumulation written with a byte slice: acc = append(acc, "\n\n"...) guarded by len(acc) > 0
+		if len(eng.CallsNamed(fn, false, "tabula.(*Extractor).resolvePages")) > 0 {
+			for _, ci := range eng.Calls(fn, false, func(name string, _ ssa.CallInstruction) bool { return name == "builtin:append" }) {
+				args := ci.Common().Args
+				if len(args) != 2 || !eng.InLoop(ci.Block()) {
+					continue
+				}
+				if sep, ok := eng.ConstString(args[1]); !ok || sep != "\n\n" {
+					continue
+				}
+				acc := args[0]
+				n++
+				guarded := eng.GuardedBy(fn, ci.Block(), func(f eng.Fact) bool {
+					op, x, y, ok := f.Cmp()
+					if !ok {
+						return false
+					}
+					for _, side := range [][2]ssa.Value{{x, y}, {y, x}} {
+						call, isCall := side[0].(*ssa.Call)
+						if !isCall || eng.CalleeName(call) != "builtin:len" || !(call.Call.Args[0] == acc || eng.SameValue(call.Call.Args[0], acc)) {
+							continue
+						}
+						if k, isC := eng.ConstInt(side[1]); isC && k == 0 && (op == token.GTR || op == token.NEQ || op == token.LSS) {
+							return true
+						}
+					}
+					return false
+				})
+				c.Check(guarded, R, fmt.Sprintf("%s#separator%d", eng.FuncName(fn), n), ci.Pos(), "written only after earlier output", "the page separator can be written before anything else: a blank first page of the selection leaves a leading separator")
+			}
+		}
 		// the same accumulation written with string concatenation: acc += "\n\n" guarded by len(acc) > 0
 		if len(eng.CallsNamed(fn, false, "tabula.(*Extractor).resolvePages")) > 0 {
 			eng.Instrs(fn, false, func(in ssa.Instruction) {
